@@ -509,6 +509,57 @@ def dataloader_epochs(n_idx, workers):
     return out
 
 
+def loader_access(kind, n_idx=6, batch_size=2):
+    """the cached dataset read the way a DataLoader reads it (in the main process, num_workers=0): every batch must hold
+    transform(base[i]) and every sample must have gone through the cache.  `kind`: what is wrapped -- a plain map-style dataset, a
+    torch Subset (defines __getitems__), or a dataset class that defines its own batched __getitems__"""
+    import torch
+    from torch.utils.data import DataLoader, Dataset, Subset
+    from kappadata.caching.shared_dict_dataset import SharedDictDataset
+
+    class _B(Dataset):
+        def __init__(self):
+            self.loads = []
+
+        def __len__(self):
+            return n_idx
+
+        def __getitem__(self, i):
+            self.loads.append(int(i))
+            return torch.tensor([int(i) * 3 + 1])
+
+    class _BB(_B):
+        def __getitems__(self, idxs):
+            return [self[i] for i in idxs]
+
+    base = _B() if kind in ("plain", "subset") else _BB()
+    wrapped = Subset(base, list(range(n_idx))) if kind == "subset" else base
+    ds = SharedDictDataset(wrapped, transform=lambda x: x + 1000)
+    out = {"kind": kind}
+    try:
+        vals = []
+        for _ in range(2):
+            for b in DataLoader(ds, batch_size=batch_size, num_workers=0):
+                vals.append([int(x) for x in b.flatten()])
+        out["vals"] = vals
+        out["loads"] = sorted(base.loads)
+        out["cached"] = sorted(int(k) for k in ds.shared_dict.keys())
+    except Exception as e:  # noqa
+        out["exc"] = f"{type(e).__name__}: {e}"[:200]
+    return out
+
+
+def loader_access_failure(kind, n_idx=6, batch_size=2):
+    o = loader_access(kind, n_idx, batch_size)
+    exp_epoch = [[i * 3 + 1001 for i in range(s, min(s + batch_size, n_idx))] for s in range(0, n_idx, batch_size)]
+    exp = {"kind": kind, "vals": exp_epoch + exp_epoch, "loads": list(range(n_idx)), "cached": list(range(n_idx))}
+    if o != exp:
+        return Failure("cache:loader-access", f"a DataLoader over the cached dataset (wrapped: {kind}) does not see transform(base[i]) for every sample, "
+                       f"loaded once and cached: it reads around the cache / the post-cache transform", {"loader_access": [kind, n_idx, batch_size]},
+                       exp, o)
+    return None
+
+
 class C19(PropertyCheck):
     pid = "C19"
     claimed = True
@@ -630,6 +681,12 @@ class C19(PropertyCheck):
                        else "cache:exception" if kind[0] == "exc" else "cache:wrong-value")
                 res.failures.append(Failure(key, f"4 real processes sharing the cache (random get/dispose): {len(bad)} deviations, first {kind}",
                                             {"hammer": [4, 3, 600, self.seed * 10 + k]}, "no deviation", bad[:5]))
+        for kind in ("plain", "subset", "batched"):
+            res.cases += 1
+            res.bump(f"loader-access:{kind}")
+            f = loader_access_failure(kind)
+            if f is not None:
+                res.failures.append(f)
         if self.tier != "quick":
             eps = dataloader_epochs(7, 3)
             res.cases += 1
@@ -647,6 +704,8 @@ class C19(PropertyCheck):
         if "hammer" in inp:
             bad = process_hammer(*inp["hammer"])
             return Failure("cache:exception", f"{len(bad)} deviations", inp, "none", bad[:5]) if bad else None
+        if "loader_access" in inp:
+            return loader_access_failure(*inp["loader_access"])
         if "dataloader" in inp:
             return None
         fs = oracle(inp, self._real().run(inp))
